@@ -65,7 +65,7 @@ def _analyses():
     thread = lambda c, w: kt.global_effects(c, w, thread=True)
     return {
         "C01": (
-            [a3.vjp, a3.helpers, a3_reduce.reductions, km.squeeze_axes, a16_perm.permutations_rule, a16_perm.norm_rolls, a17_labels.contraction_adjoints, vjp_axis, vjp_order, a2.catchall, a2.forwarded_defaults, vjp_drop, a2.variadic, a2.argnums_rules, a2.positional_selection, a1.arity, ka.option_domains, a5_factor.agree, vjp_alias, a5_linear.closures_linear, ka.arraybox_table, kc.inplace_sites],
+            [a3.vjp, a3.helpers, a3.einsum_sublist_target, a3_reduce.reductions, km.squeeze_axes, a16_perm.permutations_rule, a16_perm.norm_rolls, a17_labels.contraction_adjoints, vjp_axis, vjp_order, a2.catchall, a2.forwarded_defaults, vjp_drop, a2.variadic, a2.argnums_rules, a2.positional_selection, a1.arity, ka.option_domains, a5_factor.agree, vjp_alias, a5_linear.closures_linear, ka.arraybox_table, kc.inplace_sites],
             "Reverse-mode exactness is numerical; decided here are the configuration-dependent plumbing clauses every exact rule needs: "
             "broadcast discipline of VJPs (A3.vjp), negative-axis hazards (A7), layout-relative `order` values never forwarded to the cotangent (A7.order), keyword/positional binding behind catch-alls (A2.catchall), equal names and defaults where (*args, **kwargs) are forwarded to another NumPy function (A2.fwd), no option handed on incompletely (A2.drop), "
             "variadic offsets (A2.variadic), whole-argnums rules map element-wise (A2.argnums), slots of variadic primitives addressed by position, never by operand identity (A2.position), arity (A1.arity), closed option domains (A6.enum), VJP/JVP factor agreement of elementwise rules (A5), equal rules for two names of one NumPy function (A5.alias), linearity of every rule closure in its cotangent (A5.lin: a VJP is a linear map; helper primitives it calls must be known to be linear in that operand) "
@@ -88,7 +88,7 @@ def _analyses():
             "factors IS adjointness for all inputs); linearity in g of every rule closure (two-point domain over linear_in facts); 'same' entries only on linear pairs; both rules of a primitive hand its options on to NumPy completely and to functions with the same defaults (A2.drop, A2.fwd: a rule that silently runs with another option value than its twin is not its adjoint).",
         ),
         "C05": (
-            [a3.vjp, a3.helpers, a3_reduce.reductions, km.squeeze_axes, a4.match, kc.zero_paths, a1.types, a2.layout, a4_dtype.dtype_comparisons, a4_dtype.cotangent_template, vjp_axis],
+            [a3.vjp, a3.helpers, a3.einsum_sublist_target, a3_reduce.reductions, km.squeeze_axes, a4.match, kc.zero_paths, a1.types, a2.layout, a4_dtype.dtype_comparisons, a4_dtype.cotangent_template, vjp_axis],
             "A gradient lives in its argument's space: shape support under broadcasting (A3.vjp), no axis arithmetic that changes meaning for a negative axis (A7: such a slip cuts the cotangent along the wrong axis), real/complex kind for every kind assignment of the arguments (A4.match, exhaustive 2^n), "
             "kind decisions never made by dtype == <Python scalar type> (A4.dtypecmp), the shape/dtype template of a rebuilt cotangent taken from the differentiated argument (A4.template), zeros of the argument's / output's space on independent paths (A13.zero), one Box and one VSpace per differentiable type (A1.types), container layout (A2.layout).",
         ),
